@@ -24,6 +24,34 @@ type gen struct {
 	adv bool
 }
 
+// addSelectorExpressions adds matchExpressions to the parent's selector: in the initial parent and in every
+// later edit of the parent's spec that carries a selector.
+func (sc *scenario) addSelectorExpressions(exprs A) {
+	patch := func(spec interface{}) {
+		if sp, ok := spec.(map[string]interface{}); ok {
+			if sel, ok := sp["selector"].(map[string]interface{}); ok {
+				sel["matchExpressions"] = runtime.DeepCopyJSONValue(exprs)
+			}
+		}
+	}
+	patch(map[string]interface{}(sc.Parent["spec"].(J)))
+	ops := func(l []extOp) {
+		for _, op := range l {
+			if op.Op == "edit" && op.Kind == sc.Ctl.ParentKind && op.Data != nil {
+				patch(op.Data["spec"])
+			}
+		}
+	}
+	ops(sc.Setup)
+	for _, rs := range sc.Rounds {
+		ops(rs.PreOps)
+		ops(rs.LateOps)
+		for _, l := range rs.MidOps {
+			ops(l)
+		}
+	}
+}
+
 // child object as the hook would return it
 func (g *gen) desiredChild(k kidSpec, name, ns, app string, variant int) J {
 	md := J{"name": name, "labels": J{"app": app}}
@@ -1344,6 +1372,55 @@ func generateScenarios(prop string, seed uint64, n int, adv bool) []*scenario {
 			}
 			sc.Features = append(sc.Features, "conflict-then-replaced-before-retry")
 			out = append(out, sc)
+		case prop == "C04" && i%16 == 0:
+			// the hook returns a child whose labels the parent's selector does not match: a new child, or (after
+			// the warm-up created it with matching labels) one that exists and is owned; every update method
+			sc := g.basic("desired-unselectable", i, s)
+			for tries := 0; tries < 20 && (sc.Ctl.GenSelector || len(sc.Hook.Children) == 0); tries++ {
+				sc = g.basic("desired-unselectable", i, s)
+			}
+			if sc.Ctl.GenSelector || len(sc.Hook.Children) == 0 {
+				out = append(out, sc)
+				break
+			}
+			sc.Setup, sc.Hook.PlainOwnerRef = nil, false
+			for ki := range sc.Ctl.Kids {
+				sc.Ctl.Kids[ki].Method, sc.Ctl.Kids[ki].EmptyStrategy = []string{"InPlace", "Recreate", "OnDelete"}[r.Intn(3)], false
+			}
+			sc.Ctl.SSA = r.Chance(1, 5)
+			h2 := sc.Hook
+			h2.Children = nil
+			bad := r.Intn(len(sc.Hook.Children))
+			for ci, c := range sc.Hook.Children {
+				c2 := runtime.DeepCopyJSON(c)
+				if ci == bad {
+					switch r.Intn(3) {
+					case 0:
+						c2["metadata"].(map[string]interface{})["labels"] = map[string]interface{}{"app": "elsewhere"}
+					case 1:
+						delete(c2["metadata"].(map[string]interface{}), "labels")
+					default:
+						c2["metadata"].(map[string]interface{})["labels"] = map[string]interface{}{"other": "x"}
+					}
+				}
+				if sp, ok := c2["spec"].(map[string]interface{}); ok {
+					sp["replicas"] = int64(9) // every child differs from what exists
+				}
+				h2.Children = append(h2.Children, c2)
+			}
+			sc.Warmup = r.Chance(3, 4)
+			if sc.Warmup {
+				sc.Hook2 = &h2
+				sc.Features = []string{"desired-unselectable", "existing-child-relabelled-by-hook"}
+			} else {
+				sc.Hook = h2
+				sc.Features = []string{"desired-unselectable"}
+			}
+			if sc.Ctl.SSA {
+				sc.Features = append(sc.Features, "ssa")
+			}
+			sc.Rounds = []roundSpec{{}, {}}
+			out = append(out, sc)
 		case prop == "C04" && i%16 == 8:
 			// one controller instance; between two syncs the parent's selector is edited in place (same UID)
 			sc := g.basic("selector-edit", i, s)
@@ -1375,7 +1452,18 @@ func generateScenarios(prop string, seed uint64, n int, adv bool) []*scenario {
 				sc.Rounds = sc.Rounds[:4]
 			}
 			at := r.Intn(len(sc.Rounds))
-			sc.Rounds[at].PreOps = append(sc.Rounds[at].PreOps, extOp{Op: "orphan-revisions"})
+			orph := extOp{Op: "orphan-revisions"}
+			if !sc.Ctl.GenSelector && r.Bool() {
+				// the parent's selector has an expression besides its labels, and the revisions are relabelled so
+				// that they violate the expression only: not to be adopted when orphaned, to be released when owned
+				sc.addSelectorExpressions(A{J{"key": "track", "operator": "NotIn", "values": A{"retired"}}})
+				orph.Data = J{"labels": J{"track": "retired"}}
+				if r.Bool() {
+					orph.Op = "relabel-revisions"
+				}
+				sc.Features = append(sc.Features, "revisions-violate-selector-expression")
+			}
+			sc.Rounds[at].PreOps = append(sc.Rounds[at].PreOps, orph)
 			p := sc.parentRef()
 			switch r.Intn(3) {
 			case 0:
